@@ -271,7 +271,7 @@ func pgcd(a, b poly) poly {
 	return a
 }
 
-// rootsOfY returns the unique abscissa with ordinate y0 when the cubic has exactly one
+// uniqueXForY returns the unique abscissa with ordinate y0 when the cubic has exactly one
 // root in F_p (nil otherwise: none or three roots; the caller simply tries the next y0).
 func uniqueXForY(y0 *big.Int) *big.Int {
 	f := poly{modP(sub(ec.B, mul(y0, y0))), modP(bi(-3)), new(big.Int), bi(1)}
